@@ -115,6 +115,9 @@ EXTRA = {
     "C08": "The maps are also asked for run r2 right after run r1 for every ordered pair of ten boundary runs (history independence); the 128^4 sweep is memory-bounded whatever the code accepts.",
     "C18": "Every slice boundary is also looked up immediately after eight other positions (history independence).",
     "C02": "Length classes 12..44 ending in the footer of the accepted 16-byte form are part of the decision table.",
+    "C01": "Sequence counters of chunk lists are also consecutive across their maxima or stuck at an extreme.",
+    "C14": "Track sets include loops coaxial with the beam line (radius 3-12 cm) and ordinary tracks written with a negative radius, for every pitch of the list.",
+    "C15": "A call that does not return (panic, abort, hang) delivers no partition and counts as a violation here as well; track sets include coaxial loops, negative radii, several tracks on one helix and equal-size groups in one Hough bin.",
 }
 
 TECH_OVERRIDE = {
